@@ -533,13 +533,17 @@ def storeDesired (g : GW) (node child : Int) (n : Node) (vt : Option Int) (value
     | .ok _, none => fail g .valueError
     | .ok _, some vti => ret (setNode g node { n with desired := aset child (aset vti (some value) dv) n.desired })
 
+/-- `set_child_value` once node and child are known: build and validate the command for the
+    gateway's version, then store it as desired state (sleeping node) or send it -/
+def setKnown (g : GW) (node child : Int) (n : Node) (vt : Option Int) (value : Str) (ack : Int) : Res :=
+  match createSetMessage g node child vt value ack with
+  | .error e => fail g e
+  | .ok msg => if n.sleeping then storeDesired g node child n vt value else emit g [encLine msg]
+
 /-- `Gateway.set_child_value(node, child, value_type, value, ack=…)` -/
 def setChildValue (g : GW) (node child : Int) (vt : VT) (value : Str) (ack : Option Int) : Res :=
   ifKnown g node (some child) fun g1 =>
-    withNode g1 node fun n =>
-      match createSetMessage g1 node child vt.toInt value (ack.getD 0) with
-      | .error e => fail g1 e
-      | .ok msg => if n.sleeping then storeDesired g1 node child n vt.toInt value else emit g1 [encLine msg]
+    withNode g1 node fun n => setKnown g1 node child n vt.toInt value (ack.getD 0)
 
 /-! ### persistence (abstract: the file holds the persisted projection) -/
 
